@@ -8,6 +8,7 @@ From Base Require Import PyStr Regex.
 From Gen Require Import Regexes.
 From Model Require Import Typography.
 From Proofs Require Import EllProofs.
+From Proofs Require EllCorollary.
 
 Theorem C09_cert : ell_cert = true.
 Proof. vm_compute. reflexivity. Qed.
@@ -25,3 +26,9 @@ Theorem C09_ellipses_confined : forall text,
     Forall2 ell_rel ts rs.
 Proof. intros text. exact (ellipses_confined text C09_cert). Qed.
 Print Assumptions C09_ellipses_confined.
+
+(* Only three-dot runs are touched: a text that holds no run of three dots comes back unchanged. *)
+Theorem C09_no_dots_no_change : forall text,
+  ~ (exists a b, text = a ++ [46; 46; 46]%N ++ b) -> ellipses text = inl text.
+Proof. intros text N. exact (EllCorollary.ellipses_without_dots_is_identity text C09_cert N). Qed.
+Print Assumptions C09_no_dots_no_change.
